@@ -87,6 +87,8 @@ pub struct Cx<'g> {
     /// `&mut` parameters of semantic-model types (returned with the result)
     pub mut_params: Vec<String>,
     pub opt_mut_params: Vec<String>,
+    /// this fn is a finder (see `FnInfo::ref_ret`)
+    pub ref_ret: Option<(bool, String)>,
     /// `let x = &mut place;` aliases: variable -> place (every use re-reads / writes the place)
     aliases: Vec<Vec<(String, Place)>>,
     /// enclosing `while` loops: the tuple of loop-carried variables of each
@@ -143,6 +145,7 @@ impl<'g> Cx<'g> {
             mut_methods,
             mut_params: Vec::new(),
             opt_mut_params: Vec::new(),
+            ref_ret: None,
             aliases: vec![Vec::new()],
             loop_stack: Vec::new(),
             ro: vec![Vec::new()],
@@ -387,8 +390,115 @@ impl<'g> Cx<'g> {
     // ------------------------------------------------------------------ function body
 
     pub fn fn_body(&mut self, block: &syn::Block) -> R<Doc> {
+        if self.ref_ret.is_some() {
+            return self.finder_body(block);
+        }
         let (doc, _, _) = self.block(block, &Tail::FnBody, &[])?;
         Ok(doc)
+    }
+
+    /// body of a finder (a fn returning a `&mut` into its `&mut [Option<T>]` parameter `P`): exactly one of
+    ///   `P.iter_mut().flatten().find(|c| pred)`
+    ///   `P.iter_mut().enumerate().find_map(|(i, c)| match c { Some(c2) if pred => Some((i, c2)), _ => None })`
+    /// — the position of the first `Some` element satisfying `pred` (`RustSem.find_some_idx`)
+    fn finder_body(&mut self, block: &syn::Block) -> R<Doc> {
+        let (with_index, pname) = self.ref_ret.clone().unwrap();
+        let bad = "a fn returning `&mut` must be `slice.iter_mut().flatten().find(|c| p)` or `slice.iter_mut().enumerate().find_map(|(i, c)| match c { Some(c) if p => Some((i, c)), _ => None })`";
+        let e = match block.stmts.as_slice() {
+            [syn::Stmt::Expr(e, None)] => e,
+            _ => return self.bail(block.span(), bad),
+        };
+        let et = match self.lookup(&pname) {
+            Some(Ty::List(t, _)) => match *t {
+                Ty::Opt(inner) => *inner,
+                _ => return self.bail(block.span(), bad),
+            },
+            _ => return self.bail(block.span(), bad),
+        };
+        let is_param = |x: &syn::Expr| matches!(x, syn::Expr::Path(p) if p.path.is_ident(&pname));
+        let chain = |x: &syn::Expr, names: &[&str]| -> bool {
+            // x = P.names[0]().names[1]()…
+            let mut cur = x;
+            for n in names.iter().rev() {
+                match cur {
+                    syn::Expr::MethodCall(m) if m.method == n && m.args.is_empty() => cur = &m.receiver,
+                    _ => return false,
+                }
+            }
+            is_param(cur)
+        };
+        let (cvar, pred): (String, syn::Expr) = match e {
+            syn::Expr::MethodCall(m) if !with_index && m.method == "find" && m.args.len() == 1 && chain(&m.receiver, &["iter_mut", "flatten"]) => {
+                match &m.args[0] {
+                    syn::Expr::Closure(c) if c.inputs.len() == 1 && c.capture.is_none() => match &c.inputs[0] {
+                        syn::Pat::Ident(pi) if pi.subpat.is_none() => (pi.ident.to_string(), (*c.body).clone()),
+                        _ => return self.bail(e.span(), bad),
+                    },
+                    _ => return self.bail(e.span(), bad),
+                }
+            }
+            syn::Expr::MethodCall(m) if with_index && m.method == "find_map" && m.args.len() == 1 && chain(&m.receiver, &["iter_mut", "enumerate"]) => {
+                let c = match &m.args[0] {
+                    syn::Expr::Closure(c) if c.inputs.len() == 1 && c.capture.is_none() => c,
+                    _ => return self.bail(e.span(), bad),
+                };
+                // |(i, c)|
+                let (iv, cv) = match &c.inputs[0] {
+                    syn::Pat::Tuple(t) if t.elems.len() == 2 => match (&t.elems[0], &t.elems[1]) {
+                        (syn::Pat::Ident(a), syn::Pat::Ident(b)) => (a.ident.to_string(), b.ident.to_string()),
+                        _ => return self.bail(e.span(), bad),
+                    },
+                    _ => return self.bail(e.span(), bad),
+                };
+                // match c { Some(c2) if pred => Some((i, c2)), _ => None }
+                let mm = match &*c.body {
+                    syn::Expr::Match(mm) if matches!(&*mm.expr, syn::Expr::Path(p) if p.path.is_ident(&cv)) && mm.arms.len() == 2 => mm,
+                    _ => return self.bail(e.span(), bad),
+                };
+                let a0 = &mm.arms[0];
+                let c2 = match &a0.pat {
+                    syn::Pat::TupleStruct(ts) if ts.path.is_ident("Some") && ts.elems.len() == 1 => match &ts.elems[0] {
+                        syn::Pat::Ident(pi) if pi.subpat.is_none() => pi.ident.to_string(),
+                        _ => return self.bail(e.span(), bad),
+                    },
+                    _ => return self.bail(e.span(), bad),
+                };
+                let guard = match &a0.guard {
+                    Some((_, g)) => (**g).clone(),
+                    None => return self.bail(e.span(), bad),
+                };
+                // Some((i, c2))
+                let ok_body = match &*a0.body {
+                    syn::Expr::Call(call) if matches!(&*call.func, syn::Expr::Path(p) if p.path.is_ident("Some")) && call.args.len() == 1 => match &call.args[0] {
+                        syn::Expr::Tuple(t) if t.elems.len() == 2 => {
+                            matches!(&t.elems[0], syn::Expr::Path(p) if p.path.is_ident(&iv)) && matches!(&t.elems[1], syn::Expr::Path(p) if p.path.is_ident(&c2))
+                        }
+                        _ => false,
+                    },
+                    _ => false,
+                };
+                let a1 = &mm.arms[1];
+                let none_arm = matches!(&a1.pat, syn::Pat::Wild(_)) && a1.guard.is_none() && matches!(&*a1.body, syn::Expr::Path(p) if p.path.is_ident("None"));
+                if !ok_body || !none_arm {
+                    return self.bail(e.span(), bad);
+                }
+                (c2, guard)
+            }
+            _ => return self.bail(e.span(), bad),
+        };
+        self.check_local_name(&cvar, e.span())?;
+        if !self.assigned_in_expr(&pred).is_empty() || super::analysis::expr_leaves_fn(&pred) {
+            return self.bail(e.span(), "the predicate of a finder must be pure");
+        }
+        self.push_scope(vec![(cvar.clone(), et)]);
+        let mut bs: Vec<Stmt> = Vec::new();
+        let rb = self.expr(&pred, Some(&Ty::Bool), &mut bs);
+        self.pop_scope();
+        let (b, bt) = rb?;
+        if !bs.is_empty() || !matches!(bt, Ty::Bool) {
+            return self.bail(e.span(), "the predicate of a finder must be a pure boolean expression");
+        }
+        Ok(Doc::atom(format!("pure (RustSem.find_some_idx {} (fun {} => {}))", lean_ident(&pname), lean_ident(&cvar), b)))
     }
 
     /// payload of a normal / early return: `v` or `(self, v)`
@@ -1634,6 +1744,106 @@ impl<'g> Cx<'g> {
                         let (de, te, _) = else_doc(self, if div_t { None } else { Some(tt.clone()) })?;
                         let ty = if div_t { te } else { tt };
                         return Ok((Doc::If(format!("(!{mns}.contains_key {} {})", cur, k), Box::new(dt), Box::new(de)), ty));
+                    }
+                }
+            }
+            // `if let Some(x) = finder(&mut place, ..)` / `if let Some((slot, x)) = finder(&mut place, ..)`: the finder returns
+            // the position `i`; `x` is an alias of the payload of `place[i]`, `slot` is `i`
+            if let (syn::Pat::TupleStruct(ts), syn::Expr::Call(fc)) = (&*l.pat, &*l.expr) {
+                if let syn::Expr::Path(fp) = &*fc.func {
+                    if fp.path.segments.len() == 1 && ts.path.is_ident("Some") && ts.elems.len() == 1 {
+                        let fname = fp.path.segments[0].ident.to_string();
+                        let finfo = self.g.fns.get(&(None, fname.clone())).and_then(|v| v.iter().find(|f| f.ref_ret.is_some())).cloned();
+                        if let Some(finfo) = finfo {
+                            let (with_index, pname) = finfo.ref_ret.clone().unwrap();
+                            if fc.args.len() != finfo.params.len() {
+                                return self.bail(fc.span(), "wrong number of arguments");
+                            }
+                            // pattern
+                            let (slot_name, x_name): (Option<String>, String) = match (&ts.elems[0], with_index) {
+                                (syn::Pat::Ident(pi), false) if pi.subpat.is_none() && pi.by_ref.is_none() => (None, pi.ident.to_string()),
+                                (syn::Pat::Tuple(t), true) if t.elems.len() == 2 => match (&t.elems[0], &t.elems[1]) {
+                                    (syn::Pat::Ident(a), syn::Pat::Ident(b)) => (Some(a.ident.to_string()), b.ident.to_string()),
+                                    (syn::Pat::Wild(_), syn::Pat::Ident(b)) => (None, b.ident.to_string()),
+                                    _ => return self.bail(l.pat.span(), "unsupported pattern for the result of a finder"),
+                                },
+                                _ => return self.bail(l.pat.span(), "unsupported pattern for the result of a finder"),
+                            };
+                            self.check_local_name(&x_name, l.pat.span())?;
+                            if let Some(sn) = &slot_name {
+                                self.check_local_name(sn, l.pat.span())?;
+                            }
+                            let mut args = String::new();
+                            let mut base: Option<Place> = None;
+                            for (a, (pn, pt)) in fc.args.iter().zip(finfo.params.iter()) {
+                                if *pn == pname {
+                                    let mut inner: &syn::Expr = a;
+                                    loop {
+                                        match inner {
+                                            syn::Expr::Reference(r) => inner = &r.expr,
+                                            syn::Expr::Paren(p) => inner = &p.expr,
+                                            _ => break,
+                                        }
+                                    }
+                                    let pl = self.place(inner, stmts)?;
+                                    let t = self.read(&pl, stmts)?;
+                                    args.push_str(&format!(" {}", t));
+                                    base = Some(pl);
+                                } else {
+                                    let (t, _) = self.expr(a, Some(pt), stmts)?;
+                                    args.push_str(&format!(" {}", t));
+                                }
+                            }
+                            let base = base.unwrap();
+                            let (ot, vt) = match base.ty() {
+                                Ty::List(t, _) => match *t {
+                                    Ty::Opt(inner) => (Ty::Opt(inner.clone()), *inner),
+                                    _ => return self.bail(fc.span(), "a finder needs a slice of `Option`s"),
+                                },
+                                _ => return self.bail(fc.span(), "a finder needs a slice of `Option`s"),
+                            };
+                            self.g.note(&finfo.group);
+                            let r = self.fresh();
+                            stmts.push(Stmt::Bind(r.clone(), Doc::atom(format!("Exec.call ({}{})", self.fn_lean_name(&finfo), args))));
+                            let k = self.fresh();
+                            let ivar = match &slot_name {
+                                Some(sn) => lean_ident(sn),
+                                None => format!("i_{}", k),
+                            };
+                            let site = self.site(&*l.expr);
+                            let elem = Place::Index(Box::new(base), ivar.clone(), ot, site.clone());
+                            self.pending_aliases.push((x_name.clone(), Place::OptSome(Box::new(elem), vt.clone(), site)));
+                            let mut binds = vec![(x_name, vt)];
+                            if let Some(sn) = &slot_name {
+                                binds.push((sn.clone(), Ty::usize()));
+                            }
+                            let (dt, tt, div_t) = self.block(&i.then_branch, tail, &binds)?;
+                            let (de, te, _) = else_doc(self, if div_t { None } else { Some(tt.clone()) })?;
+                            let ty = if div_t { te } else { tt };
+                            return Ok((Doc::Match(r, vec![(format!("some {}", ivar), dt), ("_".into(), de)]), ty));
+                        }
+                    }
+                }
+            }
+            // `if let Some(x) = &mut place { … }` (`place: Option<T>`): `x` is an alias of the `T` behind `Some`
+            if let (syn::Pat::TupleStruct(ts), syn::Expr::Reference(rf)) = (&*l.pat, &*l.expr) {
+                if rf.mutability.is_some() && ts.path.is_ident("Some") && ts.elems.len() == 1 && self.is_place(&rf.expr) {
+                    if let syn::Pat::Ident(pi) = &ts.elems[0] {
+                        if pi.by_ref.is_none() && pi.subpat.is_none() {
+                            let name = pi.ident.to_string();
+                            self.check_local_name(&name, l.pat.span())?;
+                            let base = self.place(&rf.expr, stmts)?;
+                            if let Ty::Opt(vt) = base.ty() {
+                                let vt = *vt;
+                                let cur = self.read(&base, stmts)?;
+                                let site = self.site(&*l.expr);
+                                self.pending_aliases.push((name.clone(), Place::OptSome(Box::new(base), vt.clone(), site)));
+                                let (dt, tt, div_t) = self.block(&i.then_branch, tail, &[(name, vt)])?;
+                                let (de, te, _) = else_doc(self, if div_t { None } else { Some(tt.clone()) })?;
+                                let ty = if div_t { te } else { tt };
+                                return Ok((Doc::If(format!("(Option.isSome {})", cur), Box::new(dt), Box::new(de)), ty));
+                            }
+                        }
                     }
                 }
             }
